@@ -15,6 +15,9 @@ import (
 	"strings"
 	"time"
 
+	"github.com/glyphlang/glyph/pkg/ast"
+	"github.com/glyphlang/glyph/pkg/interpreter"
+
 	"verifharness/gen"
 	"verifharness/mon"
 	"verifharness/ref"
@@ -214,10 +217,84 @@ func c01ShowRef(o ref.Outcome) string {
 	return fmt.Sprintf("%s %s %s", o.Kind, clipN(string(b), 120), o.Why)
 }
 
+// c01Session: the outcome of a request must not depend on what the same interpreter
+// instance evaluated before (including evaluations that failed): a sequence of requests on
+// one interpreter is compared, request by request, with fresh interpreters.
+func c01Session(w *mon.W) {
+	src := "! down(n: int!): int {\n  if n <= 0 {\n    > 0\n  }\n  > 1 + down(n - 1)\n}\n\n" +
+		"@ GET /deep/:k {\n  > {x: down(parseInt(k))}\n}\n\n@ GET /div/:k {\n  $ z = 0\n  > {x: 1 / z}\n}\n\n@ GET /ok/:k {\n  > {x: 41 + 1}\n}\n\n@ GET /typ/:k {\n  > {x: k - 1}\n}\n"
+	mod, err := parseModule(src)
+	if err != nil {
+		w.Violate("parse-rejects-generated-program", "session module rejected: "+err.Error(), src)
+		return
+	}
+	routes := map[string]*ast.Route{}
+	for _, it := range mod.Items {
+		if r, ok := it.(*ast.Route); ok {
+			routes[strings.Split(r.Path, "/")[1]] = r
+		}
+	}
+	run := func(interp *interpreter.Interpreter, name string, k int) engOut {
+		interpRouteOverride = routes[name]
+		defer func() { interpRouteOverride = nil }()
+		return runInterp(interp, mod, fmt.Sprintf("/%s/%d", name, k))
+	}
+	fresh := func(name string, k int) engOut {
+		ip, _ := newLoadedInterp(mod)
+		return run(ip, name, k)
+	}
+	// largest recursion depth a fresh interpreter accepts
+	lo, hi := 1, 2000
+	if fresh("deep", lo).Kind != "value" {
+		w.Inconclusive("session: even down(1) fails")
+		return
+	}
+	for lo < hi {
+		mid := (lo + hi + 1) / 2
+		if fresh("deep", mid).Kind == "value" {
+			lo = mid
+		} else {
+			hi = mid - 1
+		}
+	}
+	kmax := lo
+	w.Count("session_max_depth_argument", kmax)
+	type step struct {
+		name string
+		k    int
+	}
+	seqs := [][]step{
+		{{"deep", kmax}, {"deep", kmax + 300}, {"deep", kmax + 1}, {"deep", kmax + 300}, {"deep", kmax}, {"ok", 1}},
+		{{"div", 1}, {"div", 1}, {"typ", 1}, {"deep", kmax}, {"ok", 1}, {"deep", kmax + 1}, {"deep", kmax}},
+		{{"deep", kmax + 5000}, {"deep", kmax}, {"typ", 2}, {"deep", kmax}},
+	}
+	for si, seq := range seqs {
+		ip, _ := newLoadedInterp(mod)
+		for k := 0; k < 3; k++ { // repeat the sequence so that leaks accumulate
+			for _, st := range seq {
+				got := run(ip, st.name, st.k)
+				want := fresh(st.name, st.k)
+				w.Case(fmt.Sprintf("session-%d-%s-%d-%d", si, st.name, st.k, k), true)
+				if !sameEng(got, want) {
+					w.Violate("outcome-depends-on-earlier-requests", fmt.Sprintf("GET /%s/%d on an interpreter that served %d earlier requests gives %s; on a fresh interpreter %s", st.name, st.k, k*len(seq), c01Show(got), c01Show(want)),
+						map[string]interface{}{"source": src, "sequence": seq, "max_depth_argument": kmax})
+					return
+				}
+			}
+		}
+	}
+}
+
 func c01Worker(in, out string) {
 	w := mon.OpenWorker(in, out)
 	var p c01Params
 	json.Unmarshal(w.Params, &p)
+	if p.Family == "session" {
+		w.Begin(0)
+		c01Session(w)
+		w.Done()
+		return
+	}
 	if p.Family == "directed" {
 		ds := c01Directed()
 		for i := w.From; i < w.To && i < len(ds); i++ {
@@ -270,6 +347,7 @@ func checkC01(tier string) {
 		return true
 	}
 	r.RunBatch(mon.Batch{Worker: "c01", Tag: "directed", N: nd, Chunk: (nd + 7) / 8, Parallel: 8, Params: c01Params{Family: "directed"}, Timeout: 10 * time.Minute, OnDeath: onDeath})
+	r.RunBatch(mon.Batch{Worker: "c01", Tag: "session", N: 1, Chunk: 1, Parallel: 1, Params: c01Params{Family: "session"}, Timeout: 10 * time.Minute, OnDeath: onDeath})
 	n := r.Pick(150000, 3000000)
 	r.RunBatch(mon.Batch{Worker: "c01", N: n, Chunk: (n + 15) / 16, Parallel: 16, Params: c01Params{Family: "random"}, Timeout: 40 * time.Minute, MemKB: 8 << 20, OnDeath: onDeath})
 	r.Floor(1000)
